@@ -234,6 +234,71 @@ OPENERS = {"(", "[", ",", ";", "=", "+", "-", "*", "/", "%", "==", "!=",
            "+=", "-=", "*=", "/=", "%="}
 
 
+CLOSE = {"(": ")", "[": "]", "<<": ">>", "<<<": ">>>", "<*": "*>"}
+
+
+def element_paren_variants(tokens):
+    """wrap one complete positional call argument or one list-literal
+    element in redundant parentheses: f(a + 1, g(x)) -> f((a + 1), g(x))"""
+    n = len(tokens)
+    for k, t in enumerate(tokens):
+        if t not in ("(", "["):
+            continue
+        prev = tokens[k - 1] if k > 0 else ""
+        ident = bool(prev) and (prev[0].isalpha() or prev[0] == "_") and \
+            prev not in OPENERS and prev not in (
+                "fn", "def", "for", "while", "catch", "error", "require",
+                "end", "TRUE", "FALSE", "NULL", "is", "to", "also", "keys",
+                "values", "entries")
+        if t == "(":
+            # a call: name( or )( or ]( - but not a definition or fn(
+            if not (ident or prev in (")", "]")):
+                continue
+            if k > 1 and tokens[k - 2] == "def":
+                continue
+            # method shorthand in an object literal: <* f(self) body *>
+            if k > 1 and tokens[k - 2] in ("<*", ",") and \
+                    tokens[:k].count("<*") > tokens[:k].count("*>"):
+                continue
+        else:
+            # a list literal, not an index/slice
+            if ident or prev in (")", "]", "def", "for") or \
+                    (prev and prev[0] in "'\""):
+                continue
+        # split the bracket content into top-level elements
+        depth, start, elems, j = 0, k + 1, [], k + 1
+        stack = []
+        ok = True
+        while j < n:
+            x = tokens[j]
+            if x in CLOSE:
+                stack.append(CLOSE[x])
+            elif stack and x == stack[-1]:
+                stack.pop()
+            elif not stack and x == CLOSE[t]:
+                elems.append((start, j))
+                break
+            elif not stack and x == ",":
+                elems.append((start, j))
+                start = j + 1
+            elif not stack and x in ("do",):
+                stack.append("end")
+            j += 1
+        else:
+            ok = False
+        if not ok:
+            continue
+        if t == "[" and j + 1 < n and tokens[j + 1] == "=":
+            continue          # destructuring assignment target
+        for (a, b) in elems:
+            el = tokens[a:b]
+            if not el or el[0] == "..." or (len(el) > 1 and el[1] == "=") \
+                    or "for" in el and t == "[" or el[-1] == "..." \
+                    or any(x in ("to",) for x in el):
+                continue
+            yield tokens[:a] + ["("] + el + [")"] + tokens[b:]
+
+
 def signed_paren_variants(tokens):
     """wrap a signed numeric literal (unary minus + literal) as a whole in
     redundant parentheses: `-1.5 in x` -> `(-1.5) in x`"""
